@@ -4,9 +4,9 @@ func init() {
 	enum := "9 cutoffs {-1/2, 0, 1/4, 1/3, 1/2, 2/3, 3/4, 1, 3/2}"
 	register(propSpec{
 		ID: "C12", Pkg: "props/c12", NeedCLI: true, QuickParallel: 4,
-		Rule: "cases: (a) bounded-exhaustive: every alignment of the listed small shapes over {A,C,a,-,N,n} built as nucleotides and over {A,C,a,-,X,x} built as proteins, " + enum + ", character sets {-, A, AC, N|X, a}, all 2^5 combinations of ends / ignore-case / ignore-gaps / ignore-N / reverse for RemoveCharacterSites (quick: all 1440 combinations on every alignment up to 2x2, 3x1, 1x3; a rotating 12-96 of them on 3x2, 2x3, 4x1, 1x4, 1x5; thorough: up to 4x1/1x4 complete, 3x2/2x3 with 144, 3x3 with 3, 4x2 and 2x4 with 8, 1x5, 5x1, 1x6, 6x1 with 16-96 rotating combinations), plus RemoveGapSites (cutoff x ends), RemoveMajorityCharacterSites (cutoff x ends x ignore-gaps x ignore-N), RemoveGapSeqs (cutoff x ignore-N) and RemoveCharacterSeqs (cutoff x {-, A, N|X, a, n|x} x 2^3 options); (b) random alignments (1-12 rows x 1-15 columns, column-wise with repeated patterns, over ACGTNnXx-acgt resp. ACDNnXx-acdLl so that the wildcard of the other alphabet and the residue N of proteins occur) with cutoffs p/q, q <= 12 (p/rows resp. p/columns frequent, so exact ties occur; 0, 1 and values outside [0,1] included); (c) goalign clean sites / clean seqs executions with -c, --char (absent, GAP, -, MAJ, characters), --ends, --ignore-case/-gaps/-n, --reverse, --positions, --positions-rm, -q. " +
-			"Oracle: the definition in exact rational arithmetic on p/q: a site (sequence) qualifies iff matching*q >= p*eligible, eligible = cells not excluded by ignore-gaps / ignore-N with the wildcard of the alignment's own alphabet in both cases, matching = cells in the character set (case folded on request, selection inverted on request) or the most frequent character among the eligible cells; count > 0 for cutoff 0 (and for a cutoff outside [0,1], as documented, except in the majority variant where the code compares with the value as given: both accepted there); every qualifying site removed, in ends mode exactly the maximal qualifying prefix and suffix; kept and removed indices ascending, disjoint, covering [0,L); leading/trailing counts = length of the removed prefix/suffix; result = selection of the kept columns (rows), names and order intact, Length()/NbSequences()/return count consistent. Either outcome accepted (counted as ambiguous) where no cell is eligible, and where counting the matching cells over all cells or over the eligible cells only decides differently (a selected character that is also an excluded one). " +
-			"Non-trivial: at least one site (sequence) removed and at least one kept, or a fraction equal to the cutoff; distinct = distinct (alphabet, rows, function, character set, cutoff, options)",
+		Rule: "cases: (a) bounded-exhaustive: every alignment of the listed small shapes over {A,C,a,-,N,n} built as nucleotides and over {A,C,a,-,X,x} built as proteins, " + enum + ", character sets {-, A, AC, N|X, a}, all 2^5 combinations of ends / ignore-case / ignore-gaps / ignore-N / reverse for RemoveCharacterSites (quick: all 1440 combinations on every alignment up to 2x2, 3x1, 1x3; a rotating 12-96 of them on 3x2, 2x3, 4x1, 1x4, 1x5; thorough: up to 4x1/1x4 complete, 3x2/2x3 with 144, 3x3 with 2, 4x2 and 2x4 with 6, 1x5, 5x1, 1x6, 6x1 with 16-96 rotating combinations), plus RemoveGapSites (cutoff x ends), RemoveMajorityCharacterSites (cutoff x ends x ignore-gaps x ignore-N), RemoveGapSeqs (cutoff x ignore-N) and RemoveCharacterSeqs (cutoff x {-, A, N|X, a, n|x} x 2^3 options); (b) random alignments (1-12 rows x 1-15 columns, column-wise with repeated patterns, over ACGTNnXx-acgt resp. ACDNnXx-acdLl so that the wildcard of the other alphabet and the residue N of proteins occur) with cutoffs p/q, q <= 12 (p/rows resp. p/columns frequent, so exact ties occur; 0, 1 and values outside [0,1] included); in all library runs the alignment that is cleaned is obtained in the ways library users obtain one, rotating through: rows added with AddSequence; rows added with AddSequenceChar where identical rows come from ONE byte slice; half of the rows appended from another alignment with Append; Sample(all rows) of a source alignment; Clone() of a source alignment; (c) goalign clean sites / clean seqs executions with -c, --char (absent, GAP, -, MAJ, characters), --ends, --ignore-case/-gaps/-n, --reverse, --positions, --positions-rm, -q. " +
+			"Oracle: the definition in exact rational arithmetic on p/q: a site (sequence) qualifies iff matching*q >= p*eligible, eligible = cells not excluded by ignore-gaps / ignore-N with the wildcard of the alignment's own alphabet in both cases, matching = cells in the character set (case folded on request, selection inverted on request) or the most frequent character among the eligible cells; count > 0 for cutoff 0 (and for a cutoff outside [0,1], as documented, except in the majority variant where the code compares with the value as given: both accepted there); every qualifying site removed, in ends mode exactly the maximal qualifying prefix and suffix; kept and removed indices ascending, disjoint, covering [0,L); leading/trailing counts = length of the removed prefix/suffix; result = selection of the kept columns (rows), names and order intact (judged on the rows in the order the alignment held them), Length()/NbSequences()/return count consistent; the alignment that was the SOURCE of the Append / Sample / Clone must be unchanged after the cleaning. Either outcome accepted (counted as ambiguous) where no cell is eligible, and where counting the matching cells over all cells or over the eligible cells only decides differently (a selected character that is also an excluded one). " +
+			"Non-trivial: at least one site (sequence) removed and at least one kept, or a fraction equal to the cutoff; distinct = distinct (alphabet, rows, function, character set, cutoff, options, construction)",
 		Assumptions: []string{
 			"the float test of the code (count >= cutoff*total with cutoff = float64(p)/float64(q)) equals the rational test for every q <= 12 and total, count <= 16: checked completely by TestCutoffArithmetic at every run; cutoffs that are not such fractions are not explored",
 			"a cutoff outside [0,1] is outside the property's quantifier; the documented rule (treated as 0) is asserted for the character, gap and sequence variants and not for the majority variant, which does not apply it (props/c12/FINDINGS.md)",
@@ -14,7 +14,7 @@ func init() {
 			"command line: refusals that the documentation does not mention (--ignore-gaps with a '-' character set, --ignore-n with N/n in the set, several characters for clean seqs) are accepted; --ignore-n is asserted for every --char including GAP",
 			"absence of violations on the explored cases; the enumerated sub-spaces listed in the evidence are covered completely",
 		},
-		LevelText: "Bounded-exhaustive enumeration plus generated-input search against a reference model in exact rational arithmetic: about 16 million (quick) to 300 million (thorough) calls of the five cleaning functions on all small alignments x cutoffs x character sets x option combinations, 20 000 to 1.6 million random larger alignments with tie-producing cutoffs, and 400 to 8 000 executions of goalign clean sites/seqs. The listed small shapes are covered completely; beyond them absence of violations is shown on what was explored.",
+		LevelText: "Bounded-exhaustive enumeration plus generated-input search against a reference model in exact rational arithmetic: about 16 million (quick) to 250 million (thorough) calls of the five cleaning functions on all small alignments x cutoffs x character sets x option combinations, 20 000 to 1.6 million random larger alignments with tie-producing cutoffs, and 400 to 8 000 executions of goalign clean sites/seqs. The listed small shapes are covered completely; beyond them absence of violations is shown on what was explored.",
 		LevelNote: "trusts the harness's rational model and its minimal FASTA/position-file readers; cutoffs are fractions with denominator <= 12",
 		Technique: "bounded-exhaustive enumeration and property-based testing (rapid) against a rational-arithmetic reference model; command-line differential with independent readers",
 		DesignRef: "DESIGN.md section 5, C12",
